@@ -34,10 +34,14 @@ PROFILES = {
     ],
     'thorough': [
         {'name': 'd2-all', 'leaves': 'all', 'consts': True, 'ops': 'all', 'depth': 2},
-        {'name': 'd3-core', 'leaves': 'sq', 'consts': False, 'ops': 'core', 'depth': 3},
+        # depth 3 over the rewrite core + add/exp/insertaxis/einsum/negative; 300 parts at level 3: sibling pairs of depth-2 terms are formed
+        # inside chunks of ~40 parents (the first complete run, core only with 1500 parts, took 6 min on 16 cores and found nothing)
+        {'name': 'd3-core', 'leaves': 'sq', 'consts': False, 'ops': sorted(set(T.CORE) | {'add', 'exp', 'insertaxis', 'einsum', 'negative'}), 'depth': 3},
+        # depth 3 over EVERY constructor of the vocabulary with leaves a (2,), A (2,2): 2.7e6 terms
+        {'name': 'd3-all-aA', 'leaves': 'aA', 'consts': False, 'ops': 'all', 'depth': 3},
     ],
 }
-NPARTS = {'quick': {1: 1, 2: 32, 3: 96}, 'thorough': {1: 2, 2: 200, 3: 1500}}
+NPARTS = {'quick': {1: 1, 2: 32, 3: 96}, 'thorough': {1: 2, 2: 200, 3: 300}}
 
 
 LOOP_CHUNK = 150
